@@ -431,7 +431,7 @@ def run_history(s, init, mode, ops, judge_from=None):
 
 
 def run_case(case):
-    s = phr.session(DBNAME, reload=True)
+    s = phr.Session(DBNAME)          # driver reset + new instance + database: the command log (= replay artefact) is this case only
     res = run_history(s, case["init"], case["mode"], case["ops"], case.get("judge_from"))
     out = {"case": case, "problems": [], "ops": res["nrun"], "diagnostics": res["diags"][:3]}
     if res["problems"]:
